@@ -445,6 +445,16 @@ def _get_numpy_Hamiltonian_ExactDiag_full_H(model, from_mpo: bool, undo_sort_cha
     return np.reshape(res, (dim, dim))
 
 
+def _anticommutes_with_JW(site, opname):
+    """Whether the onsite operator `opname` is fermionic, i.e. anti-commutes with the Jordan-Wigner sign of the site."""
+    if 'JW' not in site.opnames:
+        return False
+    op = site.get_op(opname).to_ndarray()
+    JW = site.get_op('JW').to_ndarray()
+    norm = np.linalg.norm(op)
+    return norm > 0 and np.linalg.norm(np.dot(op, JW) + np.dot(JW, op)) < 1.0e-13 * norm
+
+
 def _get_Hamiltonian_from_couplings(model, sparse: bool, undo_sort_charge: bool):
     """Helper to get either dense numpy or sparse scipy matrix of the Hamiltonian."""
     if not isinstance(model, CouplingModel):
@@ -475,7 +485,8 @@ def _get_Hamiltonian_from_couplings(model, sparse: bool, undo_sort_charge: bool)
         t = eye_0
         # the term lists don't contain the operator strings *between* the sites of a term:
         # a Jordan-Wigner string is needed on the sites in between if the operators further to the right are (in total) fermionic.
-        need_JW_right = [sites[i].op_needs_JW(op) for op, i in terms]
+        # (names like 'dN JW' are flagged by `op_needs_JW` although they commute with the JW string: use the operators.)
+        need_JW_right = [_anticommutes_with_JW(sites[i], op) for op, i in terms]
         for n_op, (op, i) in enumerate(terms):
             sites_since_last_op = range(last_site + 1, i)
             if len(sites_since_last_op) > 0:
